@@ -19,9 +19,11 @@ TREE = {
     "sub": ["b.txtpp.txt", "x.md.txtpp", ".txtpp.f"],
     "sub/deep": ["d.md.txtpp", "z.txtpp"],
     "other": ["o.txt.txtpp"],
+    "mid": ["note.md"],
+    "mid/leaf": ["q.txtpp"],
 }
 SOURCES = ["a.txt.txtpp", "c.txtpp", ".e.txtpp", "a.b.txtpp.c", "i.txt.txtpp.bak", "sub/b.txtpp.txt", "sub/x.md.txtpp",
-           "sub/deep/d.md.txtpp", "sub/deep/z.txtpp", "other/o.txt.txtpp"]
+           "sub/deep/d.md.txtpp", "sub/deep/z.txtpp", "other/o.txt.txtpp", "mid/leaf/q.txtpp"]
 # include lines: (source, path written in the include directive)
 INCLUDES = {"a.txt.txtpp": ["sub/b.txt"], "sub/b.txtpp.txt": ["deep/d.md"], "other/o.txt.txtpp": ["../c"]}
 
@@ -154,9 +156,9 @@ def check():
         random_tree_runs=n_rt, random_tree_records_validated=ok_rt,
         cases_enumerated=len(cases), cases_executed=len(vcases), distinct_classes=len(classes), max_inputs=maxin,
         exhaustive=True,
-        rule="fixed tree (10 sources in 4 directories: foo.ext.txtpp, foo.txtpp.ext, foo.txtpp, dotted stems a.b.txtpp.c / i.txt.txtpp.bak, dot-file .e.txtpp; "
+        rule="fixed tree (11 sources in 6 directories, one of them without sources on the way to a deeper one: foo.ext.txtpp, foo.txtpp.ext, foo.txtpp, dotted stems a.b.txtpp.c / i.txt.txtpp.bak, dot-file .e.txtpp; "
              "look-alikes txtpp, .txtpp, h.txtpp.tar.gz, a.txt.TXTPP, .txtpp.f; dependencies across directories) x every input list of at most "
-             f"{maxin} of 30 path expressions (directories, either name, ./ and ../, absolute, duplicates, missing targets) x recursive on/off x build/clean; "
+             f"{maxin} of 32 path expressions (directories, either name, ./ and ../, absolute, duplicates, missing targets) x recursive on/off x build/clean; "
              "base directory differs from the process cwd (library) or equals it (CLI sample); observed through per-source markers and tree differences",
         samples=[cases[len(cases) // 2], cases[7]],
     ))
